@@ -409,6 +409,9 @@ impl<'g> Interp<'g> {
         let mut kids = vec![];
         let ws = self.g.has_ws();
         let cm = self.g.has_comment();
+        // pest calls the skip rules from the (non-atomic) context in which skipping is active
+        // and forces their *bodies* atomic; pest-typed instantiates them with INHERITED = 0
+        let caller = if self.cfg.k1 { Atom::Atomic } else { Atom::NonAtomic };
         if !ws && !cm {
             return Ok((pos, Node { kind: NK::Skip, start, end: pos, kids }));
         }
@@ -416,7 +419,7 @@ impl<'g> Interp<'g> {
             self.tick()?;
             if ws {
                 loop {
-                    let r = self.scope(Scope::SkipIter, |s| s.rule_ref("WHITESPACE", pos, Atom::Atomic, false))?;
+                    let r = self.scope(Scope::SkipIter, |s| s.rule_ref("WHITESPACE", pos, caller, false))?;
                     match r {
                         Some((p, n)) => {
                             if p == pos {
@@ -430,7 +433,7 @@ impl<'g> Interp<'g> {
                 }
             }
             if cm {
-                let r = self.scope(Scope::SkipIter, |s| s.rule_ref("COMMENT", pos, Atom::Atomic, false))?;
+                let r = self.scope(Scope::SkipIter, |s| s.rule_ref("COMMENT", pos, caller, false))?;
                 if let Some((p, n)) = r {
                     if p == pos {
                         return Err(Abort::NotWellFounded("COMMENT matches the empty string".into()));
